@@ -18,12 +18,13 @@ cd /verif
 echo "verify: demo clean rc=$clean_rc, demo mutated rc=$mut_rc, tests: $tests"
 case "$tests" in *"39 passed"*) ;; *) echo "RESULT $d tests-not-39"; exit 4;; esac
 if [ $clean_rc -ne 0 ] || [ $mut_rc -eq 0 ]; then echo "RESULT $d demo-not-discriminating"; exit 5; fi
-git -C /repo apply $d/patch.diff || { echo "RESULT $d apply-to-repo-failed"; exit 6; }
+# run the check against the changed tree: the scratch worktree stands in for /repo (XDIS_VERIF_REPO), so that
+# background runs against /repo itself are not disturbed; `git -C /repo apply` + checkout is equivalent
+git -C $wt apply $d/patch.diff || { echo "RESULT $d apply-failed"; exit 6; }
 t0=$(date +%s)
-timeout 3000 ./check $prop "$@" > /tmp/check-out.$$ 2>&1; rc=$?
+XDIS_VERIF_REPO=$wt timeout 3000 ./check $prop "$@" > /tmp/check-out.$$ 2>&1; rc=$?
 t1=$(date +%s)
-git -C /repo checkout -- .
-git -C /repo status --short | grep -v '^??' | head -3
+git -C $wt checkout -q -- .
 grep -E "^VIOLATION|^KNOWN|HARNESS|^  class" /tmp/check-out.$$ | cut -c1-260 | head -8
 echo "RESULT $d check=$prop rc=$rc wall=$((t1-t0))s"
 rm -f /tmp/demo-clean.$$ /tmp/demo-mut.$$ /tmp/check-out.$$
